@@ -249,6 +249,26 @@ func (p *PF) run(fn *ssa.Function, entry StateSet, visit func(fn *ssa.Function, 
 								}
 							}
 						}
+						// the same for the nil-ness of an interface / pointer result: "_, _, err := recv(ctx, ch); if err != nil { … }"
+						if p.InScope != nil {
+							if cf, ok := g.asCmp(); ok && (cf.op == token.EQL || cf.op == token.NEQ) {
+								x, y := cf.x, cf.y
+								if isNilConst(x) {
+									x, y = y, x
+								}
+								if call, ridx := resultCall(x); call != nil && isNilConst(y) {
+									if callee := staticCallee(&call.Call); callee != nil && callee.Blocks != nil && p.InScope(callee) {
+										entry := p.preCall[call]
+										if entry == 0 {
+											for q := 0; q < p.N; q++ {
+												entry |= ss(q)
+											}
+										}
+										es &= p.nilExits(callee, ridx, cf.op == token.EQL, entry)
+									}
+								}
+							}
+						}
 						if p.Edge == nil {
 							continue
 						}
@@ -464,4 +484,103 @@ func predIndexOf(succ, pred *ssa.BasicBlock, succIdx int) int {
 		}
 	}
 	return -1
+}
+
+// resultCall: v is a result of a call (the call itself for a single result, or the Extract of a tuple result).
+func resultCall(v ssa.Value) (*ssa.Call, int) {
+	switch x := v.(type) {
+	case *ssa.Call:
+		if _, isTuple := x.Type().(*types.Tuple); !isTuple {
+			return x, 0
+		}
+	case *ssa.Extract:
+		if c, ok := x.Tuple.(*ssa.Call); ok {
+			return c, x.Index
+		}
+	}
+	return nil, 0
+}
+
+// nilExits: the states in which callee can return with result #ridx nil (isNil) / non-nil. A result that is the constant nil
+// is nil; a result that is ctx.Err() evaluated in the arm of a completed receive from ctx.Done() is non-nil (context contract);
+// any other result counts for both.
+func (p *PF) nilExits(callee *ssa.Function, ridx int, isNil bool, entry StateSet) StateSet {
+	type key struct {
+		fn    *ssa.Function
+		ridx  int
+		isNil bool
+		q     int
+		nilK  bool
+	}
+	if p.boolMemo == nil {
+		p.boolMemo = map[interface{}]StateSet{}
+	}
+	all := StateSet(0)
+	for q := 0; q < p.N; q++ {
+		all |= ss(q)
+	}
+	var out StateSet
+	for q := 0; q < p.N; q++ {
+		if !entry.has(q) {
+			continue
+		}
+		k := key{callee, ridx, isNil, q, true}
+		if s, ok := p.boolMemo[k]; ok {
+			out |= s
+			continue
+		}
+		p.boolMemo[k] = all
+		var one StateSet
+		for _, e := range p.run(callee, ss(q), nil) {
+			if ridx >= len(e.Ret.Results) {
+				one |= e.States
+				continue
+			}
+			rv := returnedValue(e.Ret, ridx)
+			if isNilConst(rv) {
+				if !isNil {
+					continue
+				}
+			} else if isCtxErrAfterDone(rv) {
+				if isNil {
+					continue
+				}
+			}
+			one |= e.States
+		}
+		p.boolMemo[k] = one
+		out |= one
+	}
+	return out
+}
+
+// isCtxErrAfterDone: v is ctx.Err() evaluated in a block dominated by the arm of a select (or a plain receive) on
+// ctx.Done() of the same context.
+func isCtxErrAfterDone(v ssa.Value) bool {
+	call, ok := v.(*ssa.Call)
+	if !ok || !call.Call.IsInvoke() || call.Call.Method.Name() != "Err" || !isContextType(call.Call.Value.Type()) {
+		return false
+	}
+	for _, g := range guardsOf(call.Block()) {
+		cf, ok := g.asCmp()
+		if !ok || cf.op != token.EQL {
+			continue
+		}
+		ex, ok := cf.x.(*ssa.Extract)
+		if !ok || ex.Index != 0 {
+			continue
+		}
+		sel, ok := ex.Tuple.(*ssa.Select)
+		k, isK := cf.y.(*ssa.Const)
+		if !ok || !isK || k.Value == nil {
+			continue
+		}
+		idx := int(k.Int64())
+		if idx >= 0 && idx < len(sel.States) && sel.States[idx].Dir == types.RecvOnly {
+			if kind, _ := classifyChan(sel.States[idx].Chan); kind == "ctx-done" {
+				return true
+			}
+		}
+	}
+	return false
 }
